@@ -207,6 +207,43 @@ theorem poller_key_is_alive (h : run Cfg.gen (init d cap) evs = some s)
   have := ok.rcok.rel1 hrc
   exact ⟨o, ho, hfd, hrc, by omega, by omega⟩
 
+/-- **`remove_one` re-registers the descriptor** (cancel on the polling driver, `cancel_one` → `remove_one` → `renew`):
+after the cancelled key has left the queues, what the poller carries for that descriptor is `event()` of the REMAINING
+queues — in particular its user-data key is the new front waiter (a member of the old queue other than the cancelled
+op), or nothing; it is never the cancelled op, whose storage is about to be released. Together with
+`poller_key_is_alive` (every state reached by such a step): a readiness event is never routed through released
+storage. (The re-registration cannot be skipped when only the key changes: the interest bits may be the same.) -/
+theorem cancel_rearms_poller_with_live_front (c : Cfg) (s : State) (id : Nat) (o : Op)
+    (posts : List (Nat × Bool × Res)) (hd : s.drv = .poll) (hk : o.kind ≠ .blocking) :
+    (cancelIssue c s id o posts).armed o.fd = ((cancelIssue c s id o posts).reg o.fd).event ∧
+      ((cancelIssue c s id o posts).armed o.fd).key ≠ some id ∧
+      ∀ k, ((cancelIssue c s id o posts).armed o.fd).key = some k →
+        k ≠ id ∧ (k ∈ (s.reg o.fd).rq ∨ k ∈ (s.reg o.fd).wq) := by
+  have hreg : (cancelIssue c s id o posts).reg = upd s.reg o.fd ((s.reg o.fd).remove id) := by
+    unfold cancelIssue driverCancel pollCancel; simp [hd, hk]
+  have harm : (cancelIssue c s id o posts).armed = upd s.armed o.fd ((s.reg o.fd).remove id).event := by
+    unfold cancelIssue driverCancel pollCancel; simp [hd, hk]
+  have key : ∀ k, ((s.reg o.fd).remove id).event.key = some k →
+      k ≠ id ∧ (k ∈ (s.reg o.fd).rq ∨ k ∈ (s.reg o.fd).wq) := by
+    intro k hkk
+    unfold FdQ.event FdQ.remove at hkk
+    simp only at hkk
+    cases hw : (List.filter (fun x => x != id) (s.reg o.fd).wq).head? with
+    | some w =>
+      rw [hw] at hkk; simp only [Option.some.injEq] at hkk; subst hkk
+      have := mem_filter_ne.mp (List.mem_of_mem_head? hw)
+      exact ⟨this.2, Or.inr this.1⟩
+    | none =>
+      rw [hw] at hkk; simp only at hkk
+      have := mem_filter_ne.mp (List.mem_of_mem_head? hkk)
+      exact ⟨this.2, Or.inl this.1⟩
+  refine ⟨by rw [hreg, harm]; simp only [upd_same], ?_, ?_⟩
+  · rw [harm]; simp only [upd_same]
+    intro h; exact (key id h).1 rfl
+  · intro k hk'
+    rw [harm] at hk'; simp only [upd_same] at hk'
+    exact key k hk'
+
 /-- **the ring is closed before in-flight keys are freed** — over the statement order extracted from
 `impl Drop for iour::Driver`: every `freeInFlight` statement is preceded by a `closeRing`, and the order is
 exactly the one the invariant proof (`step_inv`) needs. -/
